@@ -1,64 +1,155 @@
-"""Static metadata of every check (read by pvm.check without importing pacti)."""
+"""Static metadata of every check (read by pvm.check and mk_manifest.py without importing pacti)."""
 
 NUM = ("floats read as exact rationals; conclusion violated only inside |v|<=1000 by more than 1e-4*(1+|c|); "
        "negative hypotheses get 1e-7 slack (the properties' numerical reading)")
 TB = "trusted base: CPython, z3 QF_LRA, fractions, pvm/exact.py"
 
-META = {
-    "C04": {
-        "level": "exploration",
-        "rule": ("cases = (term list, context, eliminated vars, mode, simplify, tactics_order); the complete "
-                 "two-variable grid (24 terms x 137 contexts x 6 orders x 2 modes; quick: a 1/4 stride) plus a sampled "
-                 "three-variable grid plus random families (random, boxed, wrong-direction, chain, degenerate, "
-                 "Kaykobad-shaped). Non-trivial = the call reached the tactic dispatcher at least once (some term "
-                 "mentioned an eliminated variable); distinct = distinct case digests."),
-        "required": ["events:transform_term", "events:PTL.elim_vars_by_refining", "events:PTL.elim_vars_by_relaxing",
-                     "reach:tactic1:accepted:refine", "reach:tactic1:accepted:relax",
-                     "reach:tactic2:accepted:refine", "reach:tactic2:accepted:relax",
-                     "reach:tactic3:accepted:refine", "reach:tactic3:accepted:relax",
-                     "reach:tactic4:accepted:refine",
-                     "reach:tactic5:accepted:refine", "reach:tactic5:accepted:relax",
-                     "reach:dispatcher-declined:refine", "reach:dispatcher-declined:relax"],
-        "assumptions": [NUM, TB, "L1 verdict point is the return of the tactic dispatcher (_transform_term)"],
-        "exhaustive": False,
-        "exhaustive_note": "thorough tier enumerates the two-variable grid completely (counter grid2_cases)",
-        "soft_s": {"quick": 200, "thorough": 3000},
-    },
-    "C03": {
-        "level": "exploration",
-        "rule": ("cases = pairs of constraint lists (families: unrelated, weakenings, Farkas combinations, boundary, "
-                 "separated, reflexive, sub-list, unbounded, empty left/right, near-boundary), pairs of contracts over a "
-                 "common or a different interface, and environment/implementation membership queries; every "
-                 "PolyhedralTermList.refines event (direct or nested) is classified by exact containment into "
-                 "must-True / must-False / band and the answer compared; must-True is asserted on small-integer / "
-                 "dyadic data only. Non-trivial = a refinement test was actually evaluated; distinct = case digests."),
-        "required": ["events:PTL.refines", "events:IoContract.refines", "events:contains_env", "events:contains_impl",
-                     "list:T:Lfeasible", "list:F:Lfeasible", "list:T:Lempty", "contract:different-interfaces",
-                     "contract:weaker:T", "contract:under_assumptions:T", "contract:unrelated:F", "env:T", "env:F",
-                     "impl:T", "impl:F"],
-        "assumptions": [NUM, TB, "thinly infeasible left sides (infeasible, but feasible after relaxing by 1e-3) are "
-                        "treated as band"],
-        "soft_s": {"quick": 200, "thorough": 3000},
-    },
-    "C01": {
-        "level": "exploration",
-        "rule": ("cases = (contract pair, vars_to_keep, simplify, tactics_order): the repository's stored compositions "
-                 "in both call orders under 8 tactic orders and both simplify flags, seeded perturbations of them, "
-                 "and generated pairs over 7 wirings (independent, cascade both orders, shared inputs, feedback, "
-                 "mixed, fan) with gain-type and random sparse contents, redundant terms, kept variables. The oracle "
-                 "decides A_C & hon(C1) & hon(C2) & (viol A_1 | viol A_2 | viol G_C) UNSAT on every returned result. "
-                 "Non-trivial = compose returned a contract; distinct = case digests."),
-        "required": ["reach:returned:wiring:indep", "reach:returned:wiring:cascade", "reach:returned:wiring:cascade_rev",
-                     "reach:returned:wiring:shared_in", "reach:returned:wiring:feedback", "reach:returned:wiring:mixed",
-                     "reach:returned:wiring:corpus",
-                     "reach:returned:branch:self-helps-other", "reach:returned:branch:other-helps-self",
-                     "reach:returned:branch:neither", "reach:returned:branch:cycle",
-                     "reach:returned:simplify=True", "reach:returned:simplify=False",
-                     "reach:returned:keep=True", "reach:returned:keep=False",
-                     "reach:returned:tactic1", "reach:returned:tactic2", "reach:returned:tactic3",
-                     "reach:rejected:feedback", "reach:rejected:keep", "reach:rejected:eliminate"],
-        "assumptions": [NUM, TB, "operands are constructed with the default simplification and snapshotted after "
-                        "construction; all variables are free in the oracle query"],
-        "soft_s": {"quick": 200, "thorough": 3000},
-    },
+META = {}
+MANIFEST_TEXT = {}
+NOT_APPLICABLE = {}
+
+META['C01'] = {'level': 'exploration',
+ 'rule': "cases = (contract pair, vars_to_keep, simplify, tactics_order): the repository's stored compositions in "
+         'both call orders under 8 tactic orders and both simplify flags, seeded perturbations of them, and '
+         'generated pairs over 7 wirings (independent, cascade both orders, shared inputs, feedback, mixed, fan) '
+         'with gain-type and random sparse contents, redundant terms, kept variables. The oracle decides A_C & '
+         'hon(C1) & hon(C2) & (viol A_1 | viol A_2 | viol G_C) UNSAT on every returned result. Non-trivial = compose '
+         'returned a contract; distinct = case digests.',
+ 'required': ['reach:returned:wiring:indep',
+              'reach:returned:wiring:cascade',
+              'reach:returned:wiring:cascade_rev',
+              'reach:returned:wiring:shared_in',
+              'reach:returned:wiring:feedback',
+              'reach:returned:wiring:mixed',
+              'reach:returned:wiring:corpus',
+              'reach:returned:branch:self-helps-other',
+              'reach:returned:branch:other-helps-self',
+              'reach:returned:branch:neither',
+              'reach:returned:branch:cycle',
+              'reach:returned:simplify=True',
+              'reach:returned:simplify=False',
+              'reach:returned:keep=True',
+              'reach:returned:keep=False',
+              'reach:returned:tactic1',
+              'reach:returned:tactic2',
+              'reach:returned:tactic3',
+              'reach:rejected:feedback',
+              'reach:rejected:keep',
+              'reach:rejected:eliminate'],
+ 'assumptions': ['floats read as exact rationals; conclusion violated only inside |v|<=1000 by more than '
+                 "1e-4*(1+|c|); negative hypotheses get 1e-7 slack (the properties' numerical reading)",
+                 'trusted base: CPython, z3 QF_LRA, fractions, pvm/exact.py',
+                 'operands are constructed with the default simplification and snapshotted after construction; all '
+                 'variables are free in the oracle query'],
+ 'soft_s': {'quick': 200, 'thorough': 3000}}
+
+META['C02'] = {'level': 'exploration',
+ 'rule': "cases = (dividend, divisor, additional_inputs, simplify, tactics_order): the repository's stored quotients "
+         'under 7 tactic orders and both simplify flags, seeded perturbations of them, and generated pairs in three '
+         'shapes (divisor first stage / second stage / parallel channel) with dividends built by composing the '
+         'divisor with a hidden partner, unrelated dividends, dividends assuming more / less than the divisor. The '
+         'oracle decides A_C & hon(C1) & hon(Q) & (viol A_1 | viol A_Q | viol G_C) UNSAT on every returned quotient. '
+         'Non-trivial = quotient returned a contract; distinct = case digests.',
+ 'required': ['reach:assumptions-refine-divisor=True',
+              'reach:assumptions-refine-divisor=False',
+              'reach:returned:family:hidden_partner',
+              'reach:returned:family:unrelated',
+              'reach:returned:family:corpus',
+              'reach:returned:simplify=True',
+              'reach:returned:simplify=False',
+              'reach:returned:additional_inputs=True',
+              'reach:rejected:eliminate',
+              'reach:rejected:additional-inputs',
+              'reach:returned:tactic1',
+              'reach:returned:tactic2'],
+ 'assumptions': ['floats read as exact rationals; conclusion violated only inside |v|<=1000 by more than '
+                 "1e-4*(1+|c|); negative hypotheses get 1e-7 slack (the properties' numerical reading)",
+                 'trusted base: CPython, z3 QF_LRA, fractions, pvm/exact.py',
+                 'operands snapshotted after construction with default simplification'],
+ 'soft_s': {'quick': 200, 'thorough': 3000}}
+
+META['C03'] = {'level': 'exploration',
+ 'rule': 'cases = pairs of constraint lists (families: unrelated, weakenings, Farkas combinations, boundary, '
+         'separated, reflexive, sub-list, unbounded, empty left/right, near-boundary), pairs of contracts over a '
+         'common or a different interface, and environment/implementation membership queries; every '
+         'PolyhedralTermList.refines event (direct or nested) is classified by exact containment into must-True / '
+         'must-False / band and the answer compared; must-True is asserted on small-integer / dyadic data only. '
+         'Non-trivial = a refinement test was actually evaluated; distinct = case digests.',
+ 'required': ['events:PTL.refines',
+              'events:IoContract.refines',
+              'events:contains_env',
+              'events:contains_impl',
+              'list:T:Lfeasible',
+              'list:F:Lfeasible',
+              'list:T:Lempty',
+              'contract:different-interfaces',
+              'contract:weaker:T',
+              'contract:under_assumptions:T',
+              'contract:unrelated:F',
+              'env:T',
+              'env:F',
+              'impl:T',
+              'impl:F'],
+ 'assumptions': ['floats read as exact rationals; conclusion violated only inside |v|<=1000 by more than '
+                 "1e-4*(1+|c|); negative hypotheses get 1e-7 slack (the properties' numerical reading)",
+                 'trusted base: CPython, z3 QF_LRA, fractions, pvm/exact.py',
+                 'thinly infeasible left sides (infeasible, but feasible after relaxing by 1e-3) are treated as '
+                 'band'],
+ 'soft_s': {'quick': 200, 'thorough': 3000}}
+
+META['C04'] = {'level': 'exploration',
+ 'rule': 'cases = (term list, context, eliminated vars, mode, simplify, tactics_order); the complete two-variable '
+         'grid (24 terms x 137 contexts x 6 orders x 2 modes; quick: a 1/4 stride) plus a sampled three-variable '
+         'grid plus random families (random, boxed, wrong-direction, chain, degenerate, Kaykobad-shaped). '
+         'Non-trivial = the call reached the tactic dispatcher at least once (some term mentioned an eliminated '
+         'variable); distinct = distinct case digests.',
+ 'required': ['events:transform_term',
+              'events:PTL.elim_vars_by_refining',
+              'events:PTL.elim_vars_by_relaxing',
+              'reach:tactic1:accepted:refine',
+              'reach:tactic1:accepted:relax',
+              'reach:tactic2:accepted:refine',
+              'reach:tactic2:accepted:relax',
+              'reach:tactic3:accepted:refine',
+              'reach:tactic3:accepted:relax',
+              'reach:tactic4:accepted:refine',
+              'reach:tactic5:accepted:refine',
+              'reach:tactic5:accepted:relax',
+              'reach:dispatcher-declined:refine',
+              'reach:dispatcher-declined:relax'],
+ 'assumptions': ['floats read as exact rationals; conclusion violated only inside |v|<=1000 by more than '
+                 "1e-4*(1+|c|); negative hypotheses get 1e-7 slack (the properties' numerical reading)",
+                 'trusted base: CPython, z3 QF_LRA, fractions, pvm/exact.py',
+                 'L1 verdict point is the return of the tactic dispatcher (_transform_term)'],
+ 'exhaustive': False,
+ 'exhaustive_note': 'thorough tier enumerates the two-variable grid completely (counter grid2_cases)',
+ 'soft_s': {'quick': 200, 'thorough': 3000}}
+
+RM = "runtime monitoring: "
+MANIFEST_TEXT["C01"] = {
+    "technique": RM + "recording wrappers on compose_tactics / elimination / tactic dispatcher, exact z3 oracle on every returned composition",
+    "text": ("Exploration: every composition returned by the real code under generated, corpus and perturbed workloads "
+             "is judged by an exact rational oracle for the C01 obligation; held = no counterexample point on the "
+             "K executions reported in evidence, with every wiring / branch / flag / tactic reach counter non-zero."),
+    "note": "Trusted: CPython, z3 (QF_LRA), pvm/exact.py, the properties' numerical reading; not a proof - says nothing about inputs not generated.",
+}
+MANIFEST_TEXT["C02"] = {
+    "technique": RM + "recording wrappers on quotient_tactics and nested primitives, exact z3 oracle on every returned quotient",
+    "text": ("Exploration: every quotient returned by the real code is judged for 'divisor || quotient refines dividend' "
+             "by an exact oracle; both assumption branches, both ValueError fall-backs and the rejection paths are "
+             "reach counters."),
+    "note": "Trusted: CPython, z3, pvm/exact.py; dividends are built by the real compose for the hidden-partner family.",
+}
+MANIFEST_TEXT["C03"] = {
+    "technique": RM + "wrappers on refines / contains_* and the linprog boundary; must-True / must-False / band classification by exact containment",
+    "text": ("Exploration: every refinement answer (direct or nested) is compared with the exact containment class of "
+             "its operands; band cases are counted and skipped; interface mismatches must raise IncompatibleArgsError."),
+    "note": "Trusted: CPython, z3, pvm/exact.py; must-True asserted on small-integer/dyadic data only; thinly infeasible left sides are band.",
+}
+MANIFEST_TEXT["C04"] = {
+    "technique": RM + "wrappers on elim_vars_by_*, the tactic dispatcher and every TACTICS entry; exact implication oracle per list and per term; complete two-variable grid",
+    "text": ("Exploration with a bounded-exhaustive core: the two-variable grid (39k executions; 1/4 in the quick tier) "
+             "plus random families; every accepted tactic result and every list-level result is checked for "
+             "implication in its actual context by z3; each tactic must be accepted at least once per supported mode."),
+    "note": "Trusted: CPython, z3, pvm/exact.py. L1 verdict point is the dispatcher's return (a tactic result it discards is a decline).",
 }
